@@ -288,7 +288,7 @@ class HistogramDensityMethod(BatchDetector):
         self.distances[self.total_batches] = self.current_distance
 
         # For each feature, calculate Epsilon, difference in distances
-        if self.total_batches > 1:
+        if self.batches_since_reset > 1:
             self.feature_epsilons = [
                 a_i - b_i
                 for a_i, b_i in zip(feature_distances, self._prev_feature_distances)
